@@ -28,6 +28,7 @@
 #include <netdb.h>
 #include <poll.h>
 #include <errno.h>
+#include <stdarg.h>
 #include <time.h>
 #include <unistd.h>
 #include "hx.h"
@@ -52,6 +53,7 @@ typedef struct {
 static Ep eps[NEP]; static int cur_ep = 0, pending_ep = 0;
 static int interactive = 0;                 /* blocking mode: a recv() with nothing to deliver asks the script what the server does */
 static void ask_script(const char *what, int ep);
+static long http_status; static unsigned char *http_body; static size_t http_len, http_chunk; static int http_err;
 static time_t vclock = 1600000000;
 #define EPOF(fd) (&eps[((fd) - FD_BASE) / FD_EP])
 #define EPNO(fd) (((fd) - FD_BASE) / FD_EP)
@@ -136,6 +138,8 @@ static int env_cmd(char **tok, int n) {
 	} else if (!strcmp(tok[0], "TICK")) { vclock += atol(tok[1]);
 	} else if (!strcmp(tok[0], "CONNECT")) { eps[cur_ep].connect_mode = !strcmp(tok[1], "ok") ? 1 : !strcmp(tok[1], "refused") ? 2 : 0;
 	} else if (!strcmp(tok[0], "GAI")) { eps[cur_ep].gai_fail = !strcmp(tok[1], "fail");
+	} else if (!strcmp(tok[0], "HTTP")) { size_t l; http_status = atol(tok[1]); free(http_body); http_body = hx_dec(n > 2 ? tok[2] : "-", &l); http_len = l; http_chunk = n > 3 ? (size_t)atol(tok[3]) : 0; http_err = 0;
+	} else if (!strcmp(tok[0], "HTTPERR")) { http_err = atoi(tok[1]);
 	} else if (!strcmp(tok[0], "EP")) { cur_ep = atoi(tok[1]) % NEP;
 	} else return 0;
 	return 1;
@@ -154,6 +158,54 @@ static void ask_script(const char *what, int ep) {
 	}
 	free(line); free(tok);
 }
+
+
+/* ---------------------------------------------------------------- scripted libcurl (the easy interface used by net_http_curl.c)
+ * The driver defines the curl_easy_* functions itself, so libksi's HTTP client talks to this script instead of the network:
+ *   E http url=<hex> post=<hex|-> hdr=<hex,...> agent=<hex> cto=<n> rto=<n>        what the client handed to curl_easy_perform
+ *   Q http                                                                         the script answers with env commands, then GO:
+ *       HTTP <status> <bodyHex|-> [<chunk size>]      deliver the body through the write callback (in chunks), set the response code
+ *       HTTPERR <curl code>                           curl_easy_perform fails with that code                                   */
+#include <curl/curl.h>
+#undef curl_easy_setopt
+#undef curl_easy_getinfo
+typedef struct { char *url; const char *post; long postlen; int ispost; struct curl_slist *hdr; const char *agent; long cto, rto; curl_write_callback wr; void *wrdata; char *errbuf; long code; } FakeCurl;
+CURLcode curl_global_init(long flags) { (void)flags; return CURLE_OK; }
+void curl_global_cleanup(void) {}
+CURL *curl_easy_init(void) { return H_CALLOC(1, sizeof(FakeCurl)); }
+void curl_easy_cleanup(CURL *c) { FakeCurl *f = c; if (f) { free(f->url); free(f); } }
+struct curl_slist *curl_slist_append(struct curl_slist *l, const char *sv) { struct curl_slist *n = H_CALLOC(1, sizeof(*n)), *p = l; n->data = strdup(sv); if (!l) return n; while (p->next) p = p->next; p->next = n; return l; }
+void curl_slist_free_all(struct curl_slist *l) { while (l) { struct curl_slist *n = l->next; free(l->data); free(l); l = n; } }
+CURLcode curl_easy_setopt(CURL *c, CURLoption o, ...) { FakeCurl *f = c; va_list ap; va_start(ap, o);
+	switch (o) {
+		case CURLOPT_URL: free(f->url); f->url = strdup(va_arg(ap, char *)); break;
+		case CURLOPT_POSTFIELDS: f->post = va_arg(ap, char *); break;
+		case CURLOPT_POSTFIELDSIZE: f->postlen = va_arg(ap, long); break;
+		case CURLOPT_POST: f->ispost = (int)va_arg(ap, long); break;
+		case CURLOPT_HTTPHEADER: f->hdr = va_arg(ap, struct curl_slist *); break;
+		case CURLOPT_USERAGENT: f->agent = va_arg(ap, char *); break;
+		case CURLOPT_CONNECTTIMEOUT: f->cto = va_arg(ap, long); break;
+		case CURLOPT_TIMEOUT: f->rto = va_arg(ap, long); break;
+		case CURLOPT_WRITEFUNCTION: f->wr = va_arg(ap, curl_write_callback); break;
+		case CURLOPT_WRITEDATA: f->wrdata = va_arg(ap, void *); break;
+		case CURLOPT_ERRORBUFFER: f->errbuf = va_arg(ap, char *); break;
+		default: break;
+	}
+	va_end(ap); return CURLE_OK; }
+CURLcode curl_easy_getinfo(CURL *c, CURLINFO i, ...) { FakeCurl *f = c; va_list ap; va_start(ap, i); if (i == CURLINFO_RESPONSE_CODE) { long *out = va_arg(ap, long *); *out = f->code; } va_end(ap); return CURLE_OK; }
+CURLcode curl_easy_perform(CURL *c) { FakeCurl *f = c; struct curl_slist *h; size_t off;
+	printf("E http url="); hx_print((const unsigned char *)f->url, f->url ? strlen(f->url) : 0); printf(" post=");
+	if (f->ispost && f->post) hx_print((const unsigned char *)f->post, (size_t)f->postlen); else printf("-");
+	printf(" hdr="); for (h = f->hdr; h; h = h->next) { hx_print((const unsigned char *)h->data, strlen(h->data)); printf(h->next ? "," : ""); } if (!f->hdr) printf("-");
+	printf(" agent="); hx_print((const unsigned char *)(f->agent ? f->agent : ""), f->agent ? strlen(f->agent) : 0); printf(" cto=%ld rto=%ld\n", f->cto, f->rto);
+	http_err = 0; http_status = 200; free(http_body); http_body = NULL; http_len = 0; http_chunk = 0;
+	ask_script("http", 0);
+	if (http_err) { if (f->errbuf) snprintf(f->errbuf, CURL_ERROR_SIZE, "scripted curl error %d", http_err); f->code = 0; return (CURLcode)http_err; }
+	f->code = http_status;
+	for (off = 0; off < http_len; ) { size_t n = http_chunk && http_chunk < http_len - off ? http_chunk : http_len - off;
+		if (f->wr && f->wr((char *)http_body + off, 1, n, f->wrdata) != n) { if (f->errbuf) snprintf(f->errbuf, CURL_ERROR_SIZE, "write callback refused the data"); return CURLE_WRITE_ERROR; }
+		off += n; }
+	return CURLE_OK; }
 
 /* ---------------------------------------------------------------- service level */
 #define MAXH 4096
@@ -382,6 +434,13 @@ int main(void) {
 			if (n > 1 && rc == KSI_OK) rc = KSI_CTX_setAggregatorHmacAlgorithm(ctx, (size_t)atoi(tok[1]));
 			if (n > 2 && rc == KSI_OK) rc = KSI_CTX_setExtenderHmacAlgorithm(ctx, (size_t)atoi(tok[2]));
 			printf("R bnew rc=%d\n", rc);
+		} else if (!strcmp(tok[0], "HNEW")) {
+			/* blocking services over the HTTP transport (scripted libcurl): HNEW [<aggrUri> <extUri>] */
+			int rc; free_all(); reset_net(); interactive = 1;
+			KSI_CTX_new(&ctx);
+			rc = KSI_CTX_setAggregator(ctx, n > 1 ? tok[1] : "ksi+http://h0.example:8080/aggr", cred_user, cred_key);
+			if (rc == KSI_OK) rc = KSI_CTX_setExtender(ctx, n > 2 ? tok[2] : "ksi+http://h1.example:8081/ext", cred_user, cred_key);
+			printf("R hnew rc=%d\n", rc);
 		} else if (!strcmp(tok[0], "SIGN") || !strcmp(tok[0], "CREATE")) {
 			size_t hl; unsigned char *hb = hx_dec(tok[1], &hl); KSI_DataHash *hsh = NULL; KSI_Signature *sig = NULL; int rc;
 			rc = KSI_DataHash_fromImprint(ctx, hb, hl, &hsh); free(hb);
